@@ -62,18 +62,21 @@ SPEC = dict(
         "duplicated key-sequences inside one violated key/unique: whether a keyref of an ancestor still finds them (3.11.5 removes them as conflicts, the library keeps one) is not claimed",
         "lists in which a field selects an element without simple type (selector * reaching the container elements with field '.') are skipped",
         "the verdict is attributed by error line: every scope instance is rendered on one line",
-        "known defects (docs/c10.md) are skipped exactly on the lists whose reference verdict changes when the reference model imitates the defect; their number is reported",
+        "known defects (docs/c10.md) are skipped exactly on the lists whose reference verdict changes when the reference model imitates the defect; their number is reported; "
+        "each known defect has a strict witness (run `defect-witnesses`, no skipping) that reports `defect:<id>` while the defect exists, and a defect whose witness passes is no longer skipped anywhere",
         "equality between values of different primitive types is not exercised (key/keyref type pairs are always of one primitive type)",
     ],
     coverage=_cov,
     runs=dict(
         quick=[_ix("values-flat", "values", "quick"), _ix("paths-flat", "paths", "quick"), _ix("scopes-recursive-and-ancestor", "scopes", "quick"),
-               _ix("values-document-element", "root", "quick"), _ix("paths-document-element", "rootpaths", "quick"), _ix("growth", "growth", "quick")],
+               _ix("values-document-element", "root", "quick"), _ix("paths-document-element", "rootpaths", "quick"), _ix("growth", "growth", "quick"),
+               _ix("defect-witnesses", "witness", "quick")],
         # per-run deadlines (seconds) keep the thorough tier inside its 25 min budget on an oversubscribed box: cases not started are counted
         # as deadline_skipped and the evidence then says exhaustive:false.  Unloaded, the whole tier needs ~3950 CPU-seconds (~9 min on 8 cores).
         thorough=[_ix("values-flat", "values", "thorough", "--deadline", 600), _ix("paths-flat", "paths", "thorough", "--deadline", 300),
                   _ix("scopes-recursive-and-ancestor", "scopes", "thorough", "--deadline", 120), _ix("values-document-element", "root", "thorough", "--deadline", 240),
-                  _ix("paths-document-element", "rootpaths", "thorough", "--deadline", 90), _ix("growth", "growth", "thorough", "--deadline", 90)],
+                  _ix("paths-document-element", "rootpaths", "thorough", "--deadline", 90), _ix("growth", "growth", "thorough", "--deadline", 90),
+                  _ix("defect-witnesses", "witness", "thorough")],
     ),
     manifest=dict(
         technique="bounded-exhaustive enumeration of identity-constraint definitions x all tuple lists up to a length bound, validated by the real parser "
